@@ -66,6 +66,9 @@ CHECKS = {
  "C19": ("exploration", "loop-back IBC fixture (real IBC core + fx middleware on the real app): balance/ERC-20/supply snapshot oracle per packet, memo-caller monitor, refund-exactly-once and relation-record monitor under replays and interleavings over two channels",
          "Held on the packets and endings observed: inbound packets over five denom kinds x receiver kinds x amounts x memo kinds (hostile packet data committed through the channel keeper) credit exactly the amount as ERC-20 (native for FX) to the hex receiver on a success acknowledgement and nothing on an error acknowledgement; memo calls run as hash(port/channel, sender); outbound transfers from the crossChain precompile end by ack-success / ack-error / timeout in random interleavings over two channels, each replayed: refund exact, in the original form, once; relation record gone.",
          "ERC-20-originated outbound transfers exist only under a labelled fixture (see assumptions in the evidence); the remote chain is the other end of a loop-back channel.", "4 C19"),
+ "C20": ("exploration", "panic monitors (recover + worker-process death) over wire-level mutants of every registered message type decoded by the node's tx decoder, precompile call-data fuzzing through the real EVM, parser fuzzing; CheckTx verdicts vs an independent statement of the minimum-fee rule on apps with different exemption settings",
+         "Held on the inputs explored (apart from the listed known finding in a dependency): every message type of the interface registry is generated reflectively, mutated at wire level (field omission at two levels, duplication, truncation, bit flips), decoded as the node does and given to ValidateBasic, signer resolution and the real CheckTx; every precompile method is called with well-formed, truncated, random and hostile-offset call data as transaction and eth_call; address/target parsers on random and near-valid strings; signed transactions around gas = n*allowance and fee = ceil(price*gas) on apps with six exemption lists, four allowances and four node prices.",
+         "A panic recovered by baseapp still counts. A worker process that dies is reported as a violation (CrashIsViolation).", "4 C20"),
 }
 NOT_YET = {}
 def load_props():
